@@ -50,6 +50,19 @@ def run(ctx):
         ctx.ob(bool(gs), 'server-announced `%s` is enforced by a guard in %s' % (fld, sorted(set(short(v.path) for v, _, _ in gs)) or 'no validator'),
                'capability|' + fld, loc=gs[0][0].loc(gs[0][1]) if gs else None,
                detail=None if gs else 'the field is stored in NegotiatedSettings but no validator or flow-control guard reads it')
+    # capability checks of the filter helper: complete (the rejecting conjunction only reaches `false`) and
+    # unconditional (the decision dominates the accepting return, so no else-branch / early accept skips it)
+    tf = ctx.fn('validate::is_valid_topic_filter_internal')
+    for cap, prop_ in (('wildcard_subscriptions_available', 'has_wildcard'), ('shared_subscriptions_available', 'is_shared')):
+        ra = prims.rets_after(tf, [r'^[^!].*\.%s$' % prop_, r'^!.*\.%s$' % cap])
+        ctx.ob(ra == {'False'}, 'filter helper: a filter with `%s` is always rejected when the server lacks `%s` (outcomes: %s)' % (prop_, cap, sorted(ra) if ra else 'conjunction not found'),
+               'capability-complete|' + cap, loc=tf.loc())
+        fnd, okd, bad = prims.decision_dominates_accept(tf, [r'\.%s$' % prop_])
+        ctx.ob(fnd and okd, 'filter helper: the `%s` test is on every accepting path (it is not nested under an unrelated branch)' % prop_, 'capability-unconditional|' + cap, loc=tf.loc())
+    fnd, okd, bad = prims.decision_dominates_accept(tf, [r'\.is_valid$'])
+    ctx.ob(fnd and okd and prims.rets_after(tf, [r'^!.*\.is_valid$']) == {'False'}, 'filter helper: grammar validity is tested on every accepting path and an invalid filter is always rejected', 'capability-unconditional|is_valid', loc=tf.loc())
+    ra = prims.rets_after(tf, [r'^[^!].*\.is_shared$', r'^no_local is Some$', r'^no_local@Some\.0$'])
+    ctx.ob(ra == {'False'}, 'filter helper: a shared filter with no-local set is always rejected', 'static|shared-nolocal', loc=tf.loc())
     # every outbound-internal validator of a packet with a body compares the encoded size with the maximum
     vi = ctx.fn('validate::validate_packet_outbound_internal')
     disp = codec.dispatch_by_variant(vi, r'^packet is (\w+)$')
@@ -59,12 +72,18 @@ def run(ctx):
         fnd, okc = prims.never_ok_after(iv, [r'^\(\(Option::unwrap\(context\.negotiated_settings\)\)\.maximum_packet_size_to_server < '])
         ok = fnd and okc
         ctx.ob(ok, '%s: send-time validator rejects packets longer than the server\'s maximum packet size' % var, 'maxsize|' + var, loc=iv.loc())
+        fnd2, okd, bad = prims.decision_dominates_accept(iv, [r'maximum_packet_size_to_server < '])
+        ctx.ob(fnd2 and okd, '%s: the maximum-packet-size test is on every accepting path of the send-time validator' % var, 'maxsize-unconditional|' + var, loc=iv.loc())
     ctx.floor(len(disp), 9, 'send-time validators')
     pv = ctx.fn('publish::validate_publish_packet_outbound_internal')
     errs = prims.err_blocks(pv)
     ctx.ob(prims.rets_after(pv, [r'maximum_qos is AtMostOnce$', r'^!\(packet\.qos == QualityOfService::AtMostOnce\{\}\)$']) == {'Err'} and
            prims.rets_after(pv, [r'maximum_qos is AtLeastOnce$', r'^\(packet\.qos == QualityOfService::ExactlyOnce\{\}\)$']) == {'Err'},
            'PUBLISH: QoS above the server maximum is rejected (max 0: any QoS>0; max 1: QoS 2)', 'maxqos|table', loc=pv.loc())
+    fnd2, okd, bad = prims.decision_dominates_accept(pv, [r'^!?packet\.retain$'])
+    ctx.ob(fnd2 and okd, 'PUBLISH: the retain test is on every accepting path of the send-time validator', 'retain-unconditional', loc=pv.loc())
+    fnd2, okd, bad = prims.decision_dominates_accept(pv, [r'maximum_qos is \w+$'])
+    ctx.ob(fnd2 and okd, 'PUBLISH: the maximum-QoS test is on every accepting path of the send-time validator', 'maxqos-unconditional', loc=pv.loc())
     fnd, okc = prims.never_ok_after(pv, [r'^packet\.retain$', r'^!.*\.retain_available$'])
     ctx.ob(fnd and okc, 'PUBLISH: retain is always rejected when the server does not support it (no accepting path once retain && !retain_available)', 'retain', loc=pv.loc())
 
